@@ -1,8 +1,35 @@
 package vm
 
 import (
+	"math"
+
 	"github.com/elk-language/elk/value"
 )
+
+// Converts the count argument of `take` and `drop` to a Go int.
+// A count that only fits in a BigInt exceeds the length of any iterable,
+// so it is clamped to the largest int.
+func iterableCountArgument(arg value.Value) (count int, negative bool) {
+	if arg.IsSmallInt() {
+		n := arg.AsSmallInt()
+		if n < 0 {
+			return 0, true
+		}
+		if int64(n) > math.MaxInt {
+			return math.MaxInt, false
+		}
+		return int(n), false
+	}
+
+	if big, ok := arg.SafeAsReference().(*value.BigInt); ok {
+		if big.ToGoBigInt().Sign() < 0 {
+			return 0, true
+		}
+		return math.MaxInt, false
+	}
+
+	return 0, false
+}
 
 // Std::Iterable::FiniteBase
 func initIterableFiniteBase() {
@@ -462,14 +489,14 @@ func initIterableFiniteBase() {
 		"drop",
 		func(vm *Thread, args []value.Value) (returnVal value.Value, err value.Value) {
 			self := args[0]
-			count := args[1].AsInt()
+			count, negative := iterableCountArgument(args[1])
 
-			if count < 0 {
+			if negative {
 				return value.Undefined, value.Ref(
 					value.Errorf(
 						value.OutOfRangeErrorClass,
-						"tried to drop a negative amount of values `%d` from an iterable",
-						count,
+						"tried to drop a negative amount of values `%s` from an iterable",
+						args[1].Inspect(),
 					),
 				)
 			}
@@ -536,31 +563,35 @@ func initIterableFiniteBase() {
 		"take",
 		func(vm *Thread, args []value.Value) (returnVal value.Value, err value.Value) {
 			self := args[0]
-			count := args[1].AsInt()
+			count, negative := iterableCountArgument(args[1])
 
-			if count < 0 {
+			if negative {
 				return value.Undefined, value.Ref(
 					value.Errorf(
 						value.OutOfRangeErrorClass,
-						"tried to take a negative amount of values `%d` from an iterable",
-						count,
+						"tried to take a negative amount of values `%s` from an iterable",
+						args[1].Inspect(),
 					),
 				)
 			}
 			var result value.ArrayListOfValue
+
+			if count == 0 {
+				return value.Ref(&result), value.Undefined
+			}
 
 			for elem, err := range Iterate(vm, self) {
 				if !err.IsUndefined() {
 					return value.Undefined, err
 				}
 
+				result.Append(elem)
+				count--
+				// stop before pulling an element that would not be taken:
+				// the iterable may be a channel, a generator or an iterator
 				if count <= 0 {
 					break
 				}
-
-				count--
-				result.Append(elem)
-				continue
 			}
 
 			return value.Ref(&result), value.Undefined
